@@ -101,6 +101,46 @@ def unicode_types():
     return out
 
 
+# str keys that are keyword parameters of the functions that BUILD a TypedDict: keys like any other
+RESERVED_KEY_DICTS = [
+    {"total": 1, "a": "s"}, {"total": True}, {"cls": 1, "name": "s"}, {"_typename": "s", "_fields": [1]}, {"fields": {"total": 1}},
+    {"bases": (1,), "ns": None, "self": 2.0}, {"typename": 1, "total": {"cls": {"_fields": 1}}}, {"name": 1, "kwargs": 2, "args": 3},
+]
+
+
+def reserved_key_types(rnd):
+    from monkeytype.typing import get_type, shrink_types
+    out = []
+    for d in RESERVED_KEY_DICTS:
+        for v in (d, [d], {"outer": d}, (d, 1), {1: d}):
+            out.append(get_type(v, 10))
+    # optional reserved keys
+    out.append(shrink_types([get_type({"a": 1, "total": 2}, 10), get_type({"a": 1}, 10)], 10))
+    out.append(shrink_types([get_type({"cls": 1, "_fields": 2}, 10), get_type({"cls": 1}, 10), get_type({"cls": 2, "total": "s"}, 10)], 10))
+    for k, vs in infer_cases.reserved_keys(rnd, 40):
+        try:
+            out.append(infer_cases.impl_infer(vs, k))
+        except Exception:
+            pass
+    return out
+
+
+def twin_types(mod):
+    """Classes with the same qualname in two modules of the fixture package, decoded in one process in both orders:
+    User / K / K.Inner / Plain: c08fx.mod first; Account / Ledger.Entry / K.Inner.Deep: c08fx.other first."""
+    from typing import Dict, List, Optional, Type
+    o = mod.OTHER
+    seq = [mod.User, o.User, mod.K, o.K, mod.K.Inner, o.K.Inner, mod.Plain, o.Plain,
+           o.Account, mod.Account, o.Ledger.Entry, mod.Ledger.Entry, o.K.Inner.Deep, mod.K.Inner.Deep]
+    out = []
+    for C in seq:
+        out += [C, List[C], Type[C], Dict[str, Optional[C]], typegen.make_td({"a": C})]
+    out += [Dict[mod.User, o.User], Optional[o.User], typegen.make_td({"m": mod.K.Inner, "o": o.K.Inner})]
+    from typing import Union
+    out += [Union[mod.User, o.User], Union[o.Account, mod.Account, int]]
+    return out
+
+
 def rewriters():
     from monkeytype import typing as mt
     return [("RemoveEmptyContainers", mt.RemoveEmptyContainers()), ("RewriteConfigDict", mt.RewriteConfigDict()),
@@ -114,6 +154,8 @@ def type_pool(ctx, rnd, mod):
     """[(type object, site, origin)] — not yet de-duplicated."""
     quick = ctx.tier == "quick"
     out = []
+    for t in twin_types(mod):                          # first: the decode ORDER of the twins is part of the case
+        out.append((t, SITE_FRESH, "same qualname in two modules"))
     g = ValGen(rnd)
     n_sets = 140 if quick else 2500
     sets = [g.values() for _ in range(n_sets)]
@@ -131,6 +173,8 @@ def type_pool(ctx, rnd, mod):
         out.append((t, SITE_FRESH, "namesake or attribute-exposing class"))
     for t in unicode_types():
         out.append((t, SITE_FRESH, "non-ASCII keys"))
+    for t in reserved_key_types(rnd):
+        out.append((t, SITE_FRESH, "TypedDict keys named like TypedDict() parameters"))
     base = list(out)
     rws = rewriters()
     step = 3 if quick else 1
@@ -374,6 +418,16 @@ def _run(ctx, rnd, quick, ct, ft, it, names, mod, CallTraceRow, CallTrace, type_
         for X in sentinel_types(mod):
             cases.append(_trace_case(CallTrace, CallTraceRow, func, expect, kind, label, {"a": X}, X, X,
                                      "type", "type", ct, ft, it, names, dist))
+    # TypedDict keys named like the parameters of TypedDict construction; same-named classes of two modules
+    for label in ("mfunc", "K.meth"):
+        func, expect, kind = mod.FUNCS[label]
+        for X in reserved_key_types(rnd)[:45] + twin_types(mod):
+            cases.append(_trace_case(CallTrace, CallTraceRow, func, expect, kind, label, {"total": X, "cls": int}, X, X,
+                                     "type", "type", ct, ft, it, names, dist))
+    for label, (func, expect, kind) in mod.OTHER.FUNCS.items():
+        for X in twin_types(mod)[::3]:
+            cases.append(_trace_case(CallTrace, CallTraceRow, func, expect, kind, label, {"a": X}, X, None,
+                                     "type", "absent", ct, ft, it, names, dist))
     # non-ASCII TypedDict keys, parameter names and identifiers
     for label in ("mfunc", "na\u00efve", "Caf\u00e9.m\u00e9thode"):
         func, expect, kind = mod.FUNCS[label]
@@ -386,7 +440,8 @@ def _run(ctx, rnd, quick, ct, ft, it, names, mod, CallTraceRow, CallTrace, type_
     from harness import fxclasses as fx
     stream_classes, seen_ids = [], set()
     for c in (list(ct.code) + list(getattr(fx, "USER_CLASSES", [])) + [getattr(fx, "Falsy", None), getattr(fx, "WithCall", None)]
-              + list(getattr(fx, "NAMED_LIKE_TYPING", [])) + [k for k, _ in mod.CLASSES.values()] + list(mod.SENTINELS)):
+              + list(getattr(fx, "NAMED_LIKE_TYPING", [])) + [k for k, _ in mod.CLASSES.values()] + list(mod.SENTINELS)
+              + [k for k, _ in mod.OTHER.CLASSES.values()]):
         if isinstance(c, type) and id(c) not in seen_ids:
             seen_ids.add(id(c))
             stream_classes.append(c)
@@ -485,7 +540,8 @@ def _run(ctx, rnd, quick, ct, ft, it, names, mod, CallTraceRow, CallTrace, type_
                 "return {absent, NoneType, type} x yield {absent, NoneType, type} x 0-3 argument types (half of them TypedDict-bearing); "
                 "every importable trace's row is also written to a fresh SQLite store, read back (TEXT compared) and decoded; a history "
                 "(rows written + decoded, importlib.reload of the fixture module, same rows decoded again) is judged against the "
-                "post-reload environment; dict keys / parameter names / identifiers beyond ASCII incl. lone surrogates; plain classes "
+                "post-reload environment; dict keys / parameter names / identifiers beyond ASCII incl. lone surrogates; TypedDict keys named like TypedDict() keyword parameters; "
+                "same-qualname classes in two fixture modules decoded in both orders; wraps decorators publishing __signature__; plain classes "
                 "exposing __args__ / __origin__ / a catch-all metaclass __getattr__; every trace is also built the other way round (argument dict in reverse insertion order, every TypedDict's fields "
                 "reversed, same site) and the raw stored strings of the two CallTraceRows must be identical; same raw-text test for "
                 "the field-reversed copy of every TypedDict-bearing type; model JSON vs stored JSON compared in key ORDER. non-trivial = type has a "
@@ -532,7 +588,7 @@ def _type_case(t, t_term, site, origin, it, names, ct, type_to_json, type_from_j
             dist["has_" + tag] += 1
     return {"kind": "type", "obj": t, "site": site, "tree": json.loads(text) if text else None,
             "term": f"ECType {common.coq_str(site)} ({t_term}) {ij} {id_term} {rj} {pj} {common.coq_bool(ptext_same)}",
-            "desc": repr(t)[:400] + f"  [{origin}]", "impl": impl,
+            "desc": repr(t)[:400] + (f" = {t_term[:400]}" if "TTypedDict" in t_term else "") + f"  [{origin}]", "impl": impl,
             "in_scope_guess": text is not None and dec is not None and "c08fx" not in repr(t),
             "nontrivial": any(x in t_term for x in ("TUnion", "TTypedDict", "TList", "TDict", "TTuple", "TSet", "TType", "TGenerator"))}
 
